@@ -18,9 +18,17 @@ pub fn minimise(
 ) -> Minimised {
     let mut scratch = Stats::default();
     let mut execs = 0u64;
+    // wall-clock bound as well: huge workloads make single executions slow.  (Only the amount of
+    // shrinking depends on it, never the verdict.)
+    let started = std::time::Instant::now();
+    let cap = if cap == 0 { 0 } else { cap };
     let mut best = start;
     let mut still = |t: &Trace, execs: &mut u64| -> bool {
         *execs += 1;
+        if started.elapsed().as_secs() >= 25 {
+            *execs = cap.max(*execs);
+            return false;
+        }
         let o = execute(t, &mut scratch, false);
         o.violation.as_ref().map(|v| v.class == class).unwrap_or(false)
     };
